@@ -118,6 +118,11 @@ static std::unique_ptr<ZoneInfoSource> Factory(
     if (g_log_stress) slog("SFacExit", t, name);
   }
   if (strcmp(kind_of(name), "good") == 0) return std::unique_ptr<ZoneInfoSource>(new MemSource(g_good));
+  // two ways for a name to fail: the source has nothing ("bad" -> nullptr), or it serves data that is rejected
+  // ("bad2": a truncated copy of the good data, "bad3...": not TZif at all) - either way one call per name
+  std::string b = base_of(name);
+  if (b == "bad2") return std::unique_ptr<ZoneInfoSource>(new MemSource(g_good.substr(0, g_good.size() / 2)));
+  if (b.compare(0, 4, "bad3") == 0) return std::unique_ptr<ZoneInfoSource>(new MemSource(std::string("this is not zone data\n")));
   return nullptr;
 }
 namespace cctz_extension { ZoneInfoSourceFactory zone_info_source_factory = Factory; }
@@ -232,7 +237,7 @@ static std::string obs_json(int t) {
   for (int x : g_infac) { s += (f ? "\"t" : ",\"t") + std::to_string(x + 1) + "\""; f = false; }
   s += "],\"calls\":{";
   f = true;
-  for (auto& kv : g_calls) { s += (f ? "" : ","); s += vt::jstr(base_of(kv.first) == "A" ? std::string("bad") : base_of(kv.first)) + ":" + std::to_string(kv.second); f = false; }
+  for (auto& kv : g_calls) { s += (f ? "" : ","); s += vt::jstr((base_of(kv.first) == "A" || base_of(kv.first) == "bad3") ? std::string("bad") : base_of(kv.first)) + ":" + std::to_string(kv.second); f = false; }
   s += "}";
   return s;
 }
@@ -263,7 +268,7 @@ static std::string real_name(long beh, const std::string& n) {
   }
   // the model's name "bad" is spelled as the good name "a" of the same behaviour in the other letter case: a name the
   // data source does not have, equal to a loadable one ignoring case (names are distinct strings: no sharing)
-  if (n == "bad") return "l" + std::to_string(beh) + "/A";
+  if (n == "bad") return (beh % 2) ? "l" + std::to_string(beh) + "/A" : "L" + std::to_string(beh) + "/bad3";   // bad3: served, but not TZif
   return "L" + std::to_string(beh) + "/" + n;
 }
 
